@@ -17,7 +17,7 @@ use reflex::{judge, Judged, RefLexer, Want, FLAG_NAMES};
 pub struct C17;
 pub const CHECK: C17 = C17;
 pub fn plan(t: Tier) -> vcore::Plan {
-    vcore::Plan::new(t.pick(200_000, 5_000_000), t.pick(128, 192))
+    vcore::Plan::new(t.pick(300_000, 5_000_000), t.pick(128, 192))
 }
 
 #[derive(Clone, Serialize, Deserialize)]
@@ -90,10 +90,9 @@ fn all_fragments() -> Vec<&'static str> {
     v
 }
 
-/// Generator switch for the open findings: (1) "lines are only counted at newline tokens": replace the
-/// newlines inside (terminated) string literals by spaces, so that no token follows a multi-line token;
-/// (2) "`D.` before certain non-ASCII characters becomes an error": blank such a character.
-fn without_multiline_strings(src: &str) -> String {
+/// Generator switch for the open finding "`D.` directly before certain non-ASCII characters becomes an
+/// error token" (C17/lex/kind/want=Float/got=Error/next=non-ascii): blank the character after such a numeral.
+fn avoid_open_findings(src: &str) -> String {
     let chars: Vec<char> = src.chars().collect();
     let lexer = RefLexer { chars: &chars, unicode_digits: true };
     let mut out = chars.clone();
@@ -105,21 +104,13 @@ fn without_multiline_strings(src: &str) -> String {
         }
         match lexer.at(p) {
             Some(rt) => {
-                if rt.want == Want::Str {
-                    for k in p..p + rt.len {
-                        if out[k] == '\n' {
-                            out[k] = ' ';
-                        }
-                    }
-                }
                 p += rt.len;
-                // second open finding: a numeral `D.` directly followed by a non-ASCII character
                 if matches!(rt.want, Want::Float(_) | Want::BadNumeral) && chars[p - 1] == '.' && p < chars.len() && !chars[p].is_ascii() {
                     out[p] = ' ';
                 }
             }
-            // nothing matches: an error token of unconstrained extent; when this is an unterminated `"`
-            // there is no further `"` in the text, hence no further string literal
+            // nothing matches: an error token of unconstrained extent (one character is what is assumed here;
+            // a wrong guess only makes the avoidance less effective)
             None => p += 1,
         }
     }
@@ -305,11 +296,6 @@ fn enumerate_fragments(len: usize, threads: usize) -> Acc {
 // the check
 // ------------------------------------------------------------------------------------------------
 
-// DEVTEMP
-fn dev_ignored(sig: &str) -> bool {
-    std::env::var("VERIF_C17_DEV_IGNORE").map(|l| l.split(',').any(|x| x == sig)).unwrap_or(false)
-}
-
 impl Check for C17 {
     type Case = Case;
     fn id(&self) -> &'static str {
@@ -318,7 +304,7 @@ impl Check for C17 {
 
     fn generate(&self, u: &mut Unstructured, tier: Tier) -> Option<Case> {
         let mut t = Tape::new(u);
-        // switch for the open finding: on (= avoid) for 80 % of the cases
+        // switch for the open finding: on (= avoid the trigger) for 80 % of the cases
         let free = t.chance(1, 5);
         let n = 1 + t.below(tier.pick(24, 40));
         let mut s = String::new();
@@ -346,7 +332,7 @@ impl Check for C17 {
                 _ => s.push_str("\r\n"),
             }
         }
-        let (src, origin) = if free { (s, "fragments/free") } else { (without_multiline_strings(&s), "fragments/no-multi-line-strings") };
+        let (src, origin) = if free { (s, "fragments/free") } else { (avoid_open_findings(&s), "fragments/avoid-open-findings") };
         Some(Case { src, origin: origin.to_string() })
     }
 
@@ -370,7 +356,6 @@ impl Check for C17 {
             _ => "tokens:40+",
         });
         match j.viol {
-            Some(v) if dev_ignored(&v.signature) => Verdict::Discard(format!("DEV-IGNORED {}", v.signature)),
             Some(v) => Verdict::Violation { signature: v.signature, detail: v.detail },
             None => Verdict::Pass { nontrivial: j.nontrivial() },
         }
@@ -478,7 +463,7 @@ impl Check for C17 {
         // one reproduction per signature: the shortest, then the first in enumeration order
         let mut found: Vec<((usize, u64), Found)> = total.by_sig.into_values().map(|(_, key, f)| (key, f)).collect();
         found.sort_by(|a, b| a.0.cmp(&b.0));
-        found.into_iter().map(|x| x.1).filter(|f| !dev_ignored(&f.signature)).collect()
+        found.into_iter().map(|x| x.1).collect()
     }
 
     fn health(&self, s: &Stats) -> Result<(), String> {
@@ -499,7 +484,9 @@ impl Check for C17 {
             ("has:keyword", 0.20),
             ("has:carriage-return", 0.05),
             ("gen:fragments/free", 0.10),
-            ("gen:fragments/no-multi-line-strings", 0.60),
+            ("gen:fragments/avoid-open-findings", 0.60),
+            ("has:multi-line-string", 0.10),
+            ("has:token-after-multi-line-token", 0.10),
         ];
         for (l, min) in need {
             if frac(l) < *min {
@@ -523,12 +510,13 @@ impl Check for C17 {
          without value, strings with embedded newlines / multi-byte characters / unterminated, comments with and without newline, \
          operators with prefixes and extensions, conflict markers, CR/LF/tab mixes, non-ASCII letters, 4-byte emoji, combining marks, \
          control characters); (b) RANDOM: tape-driven concatenations of 1..24 (thorough 1..40) such fragments and raw alphabet runs with \
-         random separators; for 80 % of the random cases newlines inside string literals are replaced by spaces (switch for the open \
-         findings about multi-line tokens). Oracle: walking the text with an independent maximal-munch lexer (longest match over the \
+         random separators; for 80 % of the random cases the character after a numeral `D.` is blanked when it is non-ASCII (switch for \
+         the open finding C17/lex/kind/want=Float/got=Error/next=non-ascii). Oracle: walking the text with an independent maximal-munch lexer (longest match over the \
          token definitions, fixed spelling wins a tie against the identifier rule) the reported token list must be exactly: next \
          non-[space,tab,CR] character starts a token; same kind, same payload (identifier text, string contents, number value bit-exact, \
-         comment text trimmed, bool) and same extent as the reference token there; where no definition matches an Error token of >= 1 \
-         character inside the text (extent otherwise free; the walk resumes after it); a numeral whose text has no value (> i64, \
+         comment text trimmed, bool) and same extent as the reference token there; where no definition matches an Error token that starts \
+         there and ends at the position its (line_end, col_end) denotes, >= 1 character, inside the text (extent otherwise free; the walk \
+         resumes after it); a numeral whose text has no value (> i64, \
          non-ASCII digits) is an Error token of exactly the numeral's extent; nothing but skipped whitespace may remain after the last \
          token. Every token's line_start/col_start/line_end/col_end must equal the position computed by an independent line index: \
          line = 1 + number of '\\n' before the character, column = 1 + characters since that '\\n'; (line_end, col_end) = position of the \
@@ -543,7 +531,7 @@ impl Check for C17 {
             "the documented token set is the list of spellings and regular expressions in sylt-tokenizer/src/token.rs read as ordinary regular expressions; 'longest match' is taken literally (the reference lexer backtracks to the longest complete match, e.g. '1e+' is Int, Identifier, Plus)".into(),
             "only '\\n' ends a line; '\\r' is skipped whitespace between tokens and an ordinary character inside comments and strings; columns count Unicode scalar values (not bytes, not grapheme clusters)".into(),
             "whether \\d includes non-ASCII decimal digits is not documented: both readings are accepted (the numeral is then an Error token of the numeral's extent, or each such digit is an unmatched character); texts containing numeric characters outside the harness's decimal-digit table are discarded".into(),
-            "the extent of an Error token at a place where no definition matches is not constrained (>= 1 character, inside the text, not overlapping); when it is reported with line_end == line_start its extent is taken as col_end - col_start and its end position is not judged further".into(),
+            "the extent of an Error token at a place where no definition matches is not constrained (>= 1 character, inside the text, not overlapping): it is read off the token's (line_end, col_end) through the line index, where 'one past the last column of a line' and 'column 1 of the next line' are the same position (an unterminated string literal is one error token up to the end of the text in this implementation)".into(),
             "a comment's payload is its text after '//' with leading and trailing Unicode white space removed; number values are compared with Rust's correctly rounded decimal parsing".into(),
         ]
     }
